@@ -972,6 +972,132 @@ CHECKS['C20']['note'] = CHECKS['C20']['note'] + (
     'an options stream (every space kind x input kind x keyword option of element(): order, data_ptr, cast, equal-but-distinct '
     'spaces, layouts) run in every tier.')
 
+# ---- final round: theorems added about executed definitions -------------------------------
+import re as _re
+
+
+def _count(pid, n):
+    CHECKS[pid]['text'] = _re.sub(r'\b\d+ theorems', '{} theorems'.format(n), CHECKS[pid]['text'], count=1)
+
+
+_count('C02', 25)
+CHECKS['C02']['text'] += (
+    ' FINAL ROUND: dist is a pseudo-metric on every space tree: dist_triangle (p in {1, 2, inf} and generic p >= 1), '
+    'dist_self_and_nonneg, together with dist_comm. Every norm is a lattice norm (norm_mono): entry-wise domination of moduli '
+    'implies domination of norms, at every nesting depth and on every exponent branch. Explicit-grid discretized spaces (arbitrary '
+    'per-axis-side boundary fractions): <1,1> = c * prod(n - 2 + fl + fr) (discr_explicit_one_inner). The boundary test with its '
+    'real np.isclose tolerance, unidealised (discr_one_inner_with_tolerance): <1,1> = c * prod(n - 2 + fl\' + fr\') with the fractions '
+    'the code applies, each axis total within 2 eps of the exact one. Executed without theorem now: the Float evaluation of norms, '
+    'custom inner/norm/dist.')
+_count('C05', 31)
+CHECKS['C05']['text'] += (
+    ' FINAL ROUND: adj_exposed: the model\'s .adjoint is defined exactly for trees without a non-linear operand (every class, every '
+    'depth; the driver\'s noadj answers, compared with OpNotImplementedError of the code). adj_adj: for every expression class '
+    '(incl. Left/RightVectorMult, FunctionalLeftVectorMult, right scalar multiples with non-real scalar) A.adjoint.adjoint exists '
+    'and acts like A, CONDITIONAL on the leaf hypotheses leavesAA / leavesTyped, which leaf_adj_adj (12 leaf kinds) and leaf_typed '
+    '(all modelled leaves) discharge; adj_adj_partial is subsumed. run_add / leaf_run_add: the executed action run t is additive '
+    'for every tree over the modelled leaves (all but opaque / nonlin / ComponentProjectionAdjoint, whose additivity is a hypothesis).')
+_count('C06', 18)
+CHECKS['C06']['text'] += (
+    ' FINAL ROUND: model_central_diff_rate (over R the central-difference error of every executed tree is exactly h^2 Q(h) for a '
+    'polynomial Q: the O(h^2) rate, no leaf hypotheses; the analytic form of central_diff_poly_partial; the rate stays oracle-only '
+    'for classes outside the polynomial model), deriv_extensional (two executed trees computing the same map over R have derivatives '
+    'acting identically: derivative is well defined on the operator as a map), deriv_deriv (derivative(x).derivative(y) exists and '
+    'acts like derivative(x), any commutative ring; the second derivative call is executed by the driver and compared with the code).')
+_count('C07', 62)
+CHECKS['C07']['text'] += (
+    ' FINAL ROUND, laws of the executed evaluator for all sub-trees and lists: the separable-sum node splits at the first summand\'s '
+    'length and concatenates, for a float step and for a list of per-summand steps (sep_prox_append_scalar, sep_prox_append_list); '
+    'the array-weighted sum-constraint projection is proved on lists (sumc_weighted_list_projection); the executed L1 proximal is '
+    'firmly non-expansive in every non-negatively weighted norm with scalar or point-wise steps (l1_list_firmly_nonexpansive); the '
+    'executed box projection is idempotent (box_list_idempotent). Optimality through .sep has only its split law proved.')
+CHECKS['C08']['text'] = _re.sub(r'\b51 theorems \(30 property, 21 helper/transfer lemmas\)', '55 theorems (32 property, 23 helper)', CHECKS['C08']['text'])
+_count('C08', 55)
+CHECKS['C08']['text'] += (
+    ' FINAL ROUND: conj_evaluable: for every expression of the fragment the coded convex_conj is an evaluable functional (never the '
+    'default wrapper). biconj_leaves: f** = f as a theorem for the built-in pairs L1 / Linf-ball indicator / Constant / IndicatorZero '
+    '(structural round trip of Fn.conj) and L2NormSquared (values); for derived trees and gradient-less classes f** = f stays oracle '
+    '/ correspondence only.')
+CHECKS['C09']['text'] = _re.sub(r'\b28 theorems \(23 property, 5 helpers\)', '33 theorems (27 property, 6 helper)', CHECKS['C09']['text'])
+_count('C09', 33)
+CHECKS['C09']['text'] += (
+    ' FINAL ROUND: grad_sound_weighted: on the weighted spaces WSp w (all n, w > 0) the coded gradient is the gradient of the coded '
+    'value and derivative(x)(d) is the Frechet derivative for every tree, with NO hypotheses on the space (coordinate-wise leaves and '
+    'pointwise multiplication discharged by wOps_leaf_wf / wOps_mul_symmetric; remaining side conditions WFw: no leaf argument at a '
+    'kink, non-zero quotient denominators, user operators bounded with the supplied adjoint). menv_lipschitz: the true constant '
+    '1/sigma of MoreauEnvelope.gradient (code passes nan) is a theorem for every firmly non-expansive proximal, instantiated for the '
+    'executed L2^2 proximal (menv_l2sq_prox_firm).')
+_count('C11', 20)
+CHECKS['C11']['text'] += (
+    ' FINAL ROUND: adupdates_independent_of_buffers - x, duals and callback log of the executed optimised adupdates do not depend on '
+    'the initial content of the shared temporaries, for every buffer assignment and every n.')
+_count('C12', 37)
+CHECKS['C12']['text'] += (
+    ' FINAL ROUND, about executed definitions: fista_momentum_identity / fista_t_ge_one (the FISTA t-sequence of accStep: t\'^2 - t\' = '
+    't^2, t >= 1, alpha in [0,1)); douglas_rachford_pd_run_returns_last_callback / _run_zero (a call with niter = n+1 calls back n+1 '
+    'times and returns the proximal point shown to the last callback); osmlem_consistent_fixed_point (CONDITIONAL on four entry-wise '
+    'leaf hypotheses: a point reproducing the data of every subset is a fixed point of MLEM/OSMLEM); stepsize_given_returned_as_is. '
+    'Remaining executed definitions without a theorem: Douglas-Rachford with l terms.')
+_count('C13', 30)
+CHECKS['C13']['text'] += (
+    ' FINAL ROUND: pad_const_ignored_unless_constant (only the constant leaves read pad_const); size_error_kind (which exception the '
+    'size checks raise, all n); is_linear_iff_zero_to_zero (the executed linear flag is exact for every instance); '
+    'op_derivative_is_derivative (the instance .derivative returns is the derivative of the 1-d action, for every instance); '
+    'op_adjoint_is_transpose (the instance .adjoint returns is minus the transpose for every linear PartialDerivative / Gradient / '
+    'Divergence instance, any carried pad_const); divergence_eq_stencil_sum, divergence_affine (Divergence._call as a sum of '
+    'stencils; its derivative).')
+CHECKS['C14']['text'] = _re.sub(r'\b36 theorems', '40 theorems (36 about the current code, 4 sensitivity)', CHECKS['C14']['text'], count=1)
+CHECKS['C14']['text'] += (
+    ' FINAL ROUND: complete_axis_sound (every completed uniform_partition request is consistent: exact when a limit is computed, '
+    'within the integrality epsilon when the shape is computed, within isclose when all four are given), getitem_negative_step (a '
+    'negative step never yields two or more cells), byaxis_slice (byaxis[start:stop:step], arbitrary bounds, step >= 1: exactly the '
+    'axes s, s+step, ... in order), squeeze_idempotent.')
+_count('C15', 24)
+CHECKS['C15']['text'] += (
+    ' FINAL ROUND: the corner loop as executed (fold over the 2^d corners in product order) is the tensor product of the per-axis '
+    'rules in every dimension (corner_loop_is_tensor_product); interpolation is linear in the value array for every scheme mix, '
+    'dimension and point (interp_linear_in_values); inside the hull the interpolant of real data never leaves [min, max] of the '
+    'stored values, for every linear / nearest mix, all dimensions, non-uniform grids (interp_within_value_bounds); single-point '
+    'sampling delivers the callable\'s single entry for every callable kind and return shape (sampling_single_point).')
+_count('C16', 29)
+CHECKS['C16']['text'] += (
+    ' FINAL ROUND: constant_pad_affine (constant padding is affine with linear part zero-padding = the derivative), identity_resize '
+    '(same length, any offset, every mode and direction: values unchanged), adjoint_scaling_normal_form (the adjoint as coded, '
+    'opAdjointW, equals the normal form W_D^-1 R^T W_R = opAdjointND on one axis, no non-zero hypothesis), identity_resize_nd '
+    '(forward), nd_offset_refused (an out-of-range offset in any axis refuses resizeND).')
+CHECKS['C17']['text'] = _re.sub(r'\b44 theorems \(about 28 statements and 16 helper lemmas\)', '56 theorems (about 36 statements and 20 helper lemmas)', CHECKS['C17']['text'])
+_count('C17', 56)
+CHECKS['C17']['text'] += (
+    ' FINAL ROUND, for all inputs: the out tuple normal form (explicit Nones are the same as no out, for tensor and discretized '
+    'elements); the kept axes of a discretized reduce are strictly increasing, in range, and select a sublist of the partition for '
+    'every axis argument; NumPy\'s axis rule npReduce only deletes entries; the model\'s safe can_cast (equal to NumPy\'s table) is a '
+    'partial order and implies same_kind casting; the closed form of the legacy product-space wrappers (the two-output wrapper '
+    'succeeds iff every missing out can be cast into); the result spaces of two-output ufuncs on discretized elements.')
+_count('C18', 46)
+CHECKS['C18']['text'] += (
+    ' FINAL ROUND, n-d lifting for every shape and axis position, about the executed fibre operator alongAxis: '
+    'along_axis_left_inverse; dft_inverse_along_axis (plain DFT and its paired inverse along one axis of an n-d array); '
+    'ft_inverse_along_axis (continuous FT along one axis, the steps of the executed ftForwardSepNd / ftInverseSepNd). Wavelets: '
+    'crop_shape_ok (cropShape in any dimension, conditional on admissible waverecn lengths like crop_rule); pad_mode_spec and '
+    'pad_mode_documented (full characterisation of padMode over the regenerated table). Still without theorem: composition of '
+    'several different axes (applyAxes with more than one step).')
+CHECKS['C19']['text'] = _re.sub(r'\b32 theorems', '38 theorems (33 substantive, 5 definitional)', CHECKS['C19']['text'], count=1)
+CHECKS['C19']['text'] += (
+    ' FINAL ROUND: curved 3-d detectors for ALL parameters: sphere and cylinder radius, tangency, orthogonality and lengths of '
+    'surface_deriv, normal length (curved_detector_all_params). Fan and cone circle radii also WITH shift functions '
+    '(fan_radii_shifted, cone_radii_shifted). The cone constructor\'s degeneracy test rejects exactly the parallel case and '
+    'guarantees a non-zero tangent (cone_ctor_rejects). Under a rotation init_matrix, detector surfaces of all three 3-d detector '
+    'types, det_point_position and un-normalised det_to_src of ConeBeam and Parallel3dAxis are the rigid image of the default '
+    'geometry\'s (detector_frommatrix_covariant, frommatrix_consistent_det_point).')
+_count('C20', 43)
+CHECKS['C20']['text'] = CHECKS['C20']['text'].replace('PROVED LAWS (28)', 'PROVED LAWS (32)') + (
+    ' FINAL ROUND, conversion laws about the executed definitions astype / realSpace / complexSpace / byaxis / Discr.astype: '
+    'astype_idem (casting twice = once, incl. raising cases); real_complex_stabilise (for every dtype of the regenerated tables '
+    'real_space and complex_space are idempotent and c = s.complex_space, r = c.real_space form an exact pair, float16 included); '
+    'conversions_respect_eq and discr_astype_respects_eq (history independence on the model: spaces that compare equal have '
+    'conversions that both raise or compare equal again, and astype never changes the partition). Not proved: the same for nested '
+    'product spaces (Space.astype), which stays correspondence plus history oracle only.')
+
 NOT_YET = {}
 
 
